@@ -52,7 +52,8 @@ def gen_case(rng, routine):
     if routine == 'mask':
         c['mask'] = {'mask_amp_mode': gens.pick(rng, ['ratio_sig', 'ratio_imf']),
                      'mask_freqs': gens.pick(rng, ['zc', 'zc', 0.2, 0.1, [0.25, 0.11, 0.04]]),
-                     'mask_amp': float(gens.pick(rng, [1, .5, 2])), 'max_imfs': int(rng.integers(1, 5)),
+                     'mask_amp': (float(gens.pick(rng, [1, .5, 2])) if rng.random() < .6 else rng.uniform(.3, 2, 6)),
+                     'max_imfs': int(rng.integers(1, 5)),
                      'nphases': int(gens.pick(rng, [1, 2, 4]))}
     return c
 
@@ -214,12 +215,15 @@ def check_mask(ctx, case):
             return 'raise'
     try:
         with watchdog(90):
+            amp0 = np.array(mk['mask_amp'], copy=True)
             base = run(x, 1e-8)
             if isinstance(base, str):
                 ctx.case(dig, False)
                 ctx.count('base_raised')
                 return
             ctx.case(dig, True)
+            if isinstance(mk['mask_amp'], np.ndarray):
+                ctx.count('mask_array_amplitudes_reused_across_calls')
             for c in case['pow2']:
                 t = run(c * x, c * 1e-8)
                 ctx.count('mask_exact_comparisons')
@@ -230,6 +234,8 @@ def check_mask(ctx, case):
                                   % (c, mk['mask_amp_mode'], c), dict(case, c=c))
                 elif not np.array_equal(np.asarray(t[1], float), np.asarray(base[1], float)):
                     ctx.violation('mask-freqs-scale', 'mask frequencies change under positive rescaling of the input', dict(case, c=c))
+            if not np.array_equal(np.asarray(mk['mask_amp']), amp0):
+                ctx.violation('mask-amp-modified', 'mask_sift modified the mask_amp array passed to it (re-using it changes the next result)', case)
     except WatchdogTimeout:
         ctx.count('watchdog')
 
